@@ -1,3 +1,1431 @@
-//! C16 harnesses (see /verif/DESIGN.md section 5).
+//! C16 - I/O faults and short buffers surface as errors without partial garbage.
+//!
+//! Test doubles (the only hand written parts; the code under test is the real crate):
+//!  * `FailAt<K>`: `std::io::Write` that accepts exactly `k` bytes (a write that does not fit is
+//!    accepted partially - short write - and the next call reports the fault), reports the fault
+//!    ONCE with a concrete `io::ErrorKind` and afterwards *accepts* everything again while
+//!    remembering that it was called (`after`). A serialiser that swallows the error of one part
+//!    and carries on is therefore seen twice: it reports success and it wrote behind the fault.
+//!  * `FailRd<K>`: `std::io::Read + Seek` over a byte array that delivers exactly `k` bytes (short
+//!    read allowed) and then reports the fault.
+//!  * `TightMut<N>`: output slice in a heap object of *exactly* `len` bytes (symbolic `len`), so
+//!    that any write outside the slice is outside the object and fails a CBMC pointer check.
+//!
+//! Oracle of every writer harness: the fault-free encoding is produced in the same harness by
+//! the same real function into a writer that never fails; with fault position k
+//!   k <  encoded_len: result is Err carrying the double's error kind, exactly k bytes were
+//!                     accepted, they equal encoding[..k], nothing was offered after the fault;
+//!   k == encoded_len: result is Ok and all bytes arrived.
+//! No `io::Error` is ever dropped (its drop glue on symbolic state is very expensive for CBMC):
+//! errors are inspected with `kind()` and then forgotten.
 
-crate::harnesses! {}
+use crate::sym::{any, any_le, assume};
+use crate::witness;
+use etherparse::*;
+use std::io;
+
+// ------------------------------------------------------------------------------------------
+// test doubles
+// ------------------------------------------------------------------------------------------
+
+/// the kind the writer double fails with
+const WKIND: io::ErrorKind = io::ErrorKind::Other;
+/// the kind the reader double fails with
+const RKIND: io::ErrorKind = io::ErrorKind::Other;
+
+pub struct FailAt<const K: usize> {
+    /// bytes accepted before the fault (zero behind `pos`)
+    pub buf: [u8; K],
+    /// number of bytes accepted before the fault
+    pub pos: usize,
+    /// number of bytes the writer accepts before it fails (`k == K`: never fails)
+    pub k: usize,
+    /// the fault has been reported
+    pub failed: bool,
+    /// data was offered after the fault had been reported
+    pub after: bool,
+    /// more than K bytes were offered to a writer that never fails (capture buffer too small)
+    pub overflow: bool,
+}
+
+impl<const K: usize> FailAt<K> {
+    pub fn new(k: usize) -> Self {
+        assert!(k <= K);
+        FailAt { buf: [0u8; K], pos: 0, k, failed: false, after: false, overflow: false }
+    }
+    /// accept as much of `data` as the budget allows; returns the number of bytes accepted
+    #[inline]
+    fn put(&mut self, data: &[u8]) -> usize {
+        let room = self.k - self.pos;
+        let n = if data.len() < room { data.len() } else { room };
+        self.buf[self.pos..self.pos + n].copy_from_slice(&data[..n]);
+        self.pos += n;
+        n
+    }
+}
+
+#[inline]
+fn wfault() -> io::Error {
+    io::Error::from(WKIND)
+}
+
+impl<const K: usize> io::Write for FailAt<K> {
+    /// short writes: the part that fits is accepted, the fault comes with the next call
+    fn write(&mut self, data: &[u8]) -> io::Result<usize> {
+        if data.is_empty() {
+            return Ok(0);
+        }
+        if self.failed {
+            self.after = true;
+            return Ok(data.len());
+        }
+        if self.k == self.pos {
+            if self.k == K {
+                // infallible instance: the capture buffer is too small for the encoding
+                self.overflow = true;
+                return Ok(data.len());
+            }
+            self.failed = true;
+            return Err(wfault());
+        }
+        Ok(self.put(data))
+    }
+    /// observably the default `write_all` (loop over `write`) without the loop and without the
+    /// `ErrorKind::Interrupted` test of std on a symbolic error
+    fn write_all(&mut self, data: &[u8]) -> io::Result<()> {
+        if data.is_empty() {
+            return Ok(());
+        }
+        if self.failed {
+            self.after = true;
+            return Ok(());
+        }
+        let n = self.put(data);
+        if n < data.len() {
+            if self.k == K {
+                self.overflow = true;
+                return Ok(());
+            }
+            self.failed = true;
+            return Err(wfault());
+        }
+        Ok(())
+    }
+    fn flush(&mut self) -> io::Result<()> {
+        Ok(())
+    }
+}
+
+/// the error is the one the writer double produced; never runs the drop glue
+fn is_wfault(e: io::Error) -> bool {
+    let r = e.kind() == WKIND;
+    core::mem::forget(e);
+    r
+}
+
+/// Decides one writer: `run` serialises the same value into whatever writer it is given.
+/// `L` = capture size >= encoded length, `len` = the encoded length the type announces.
+fn fault_write<const L: usize, E, F, G>(len: usize, run: F, fault: G)
+where
+    F: Fn(&mut FailAt<L>) -> Result<(), E>,
+    G: Fn(E) -> bool,
+{
+    assert!(len <= L);
+    // fault-free encoding
+    let mut full = FailAt::<L>::new(L);
+    match run(&mut full) {
+        Ok(()) => {}
+        Err(e) => {
+            core::mem::forget(e);
+            panic!("C16: fault-free run must succeed");
+        }
+    }
+    assert!(!full.failed && !full.overflow);
+    assert!(full.pos == len, "C16: announced length is the number of bytes written");
+
+    // fault after k bytes
+    let k = any_le(L);
+    assume(k <= len);
+    let mut w = FailAt::<L>::new(k);
+    let r = run(&mut w);
+    witness!(k == 0, "fault_at_start");
+    witness!(k > 0 && k < len, "fault_inside");
+    witness!(k + 1 == len, "one_byte_short");
+    witness!(k == len, "no_fault");
+    if k < len {
+        match r {
+            Ok(()) => panic!("C16: the fault was swallowed (Ok returned)"),
+            Err(e) => assert!(fault(e), "C16: the error returned is the writer's error"),
+        }
+        assert!(w.failed, "C16: fault reported");
+        assert!(!w.after, "C16: nothing is written after the fault");
+    } else {
+        match r {
+            Ok(()) => {}
+            Err(e) => {
+                core::mem::forget(e);
+                panic!("C16: no fault, result must be Ok");
+            }
+        }
+        assert!(!w.failed);
+    }
+    assert!(w.pos == k, "C16: exactly k bytes were accepted");
+    // received bytes == first k bytes of the fault-free encoding (behind k: untouched zeroes)
+    let mut i = 0;
+    while i < L {
+        if i < k {
+            assert!(w.buf[i] == full.buf[i], "C16: received bytes are a prefix of the encoding");
+        } else {
+            assert!(w.buf[i] == 0);
+        }
+        i += 1;
+    }
+}
+
+macro_rules! must_ok {
+    ($e:expr) => {
+        match $e {
+            Ok(v) => v,
+            Err(e) => {
+                core::mem::forget(e);
+                panic!("C16: value construction must succeed")
+            }
+        }
+    };
+}
+
+fn any_bool() -> bool {
+    any()
+}
+
+// ------------------------------------------------------------------------------------------
+// symbolic header values (acceptance sets of the documented constructors, as in C08)
+// ------------------------------------------------------------------------------------------
+
+fn vlan_pcp() -> VlanPcp {
+    let v: u8 = any();
+    assume(v < 8);
+    must_ok!(VlanPcp::try_new(v))
+}
+fn vlan_id() -> VlanId {
+    let v: u16 = any();
+    assume(v < (1 << 12));
+    must_ok!(VlanId::try_new(v))
+}
+fn dscp() -> IpDscp {
+    let v: u8 = any();
+    assume(v < 64);
+    must_ok!(IpDscp::try_new(v))
+}
+fn ecn() -> IpEcn {
+    let v: u8 = any();
+    assume(v < 4);
+    must_ok!(IpEcn::try_new(v))
+}
+fn frag_offset() -> IpFragOffset {
+    let v: u16 = any();
+    assume(v < (1 << 13));
+    must_ok!(IpFragOffset::try_new(v))
+}
+fn flow_label() -> Ipv6FlowLabel {
+    let v: u32 = any();
+    assume(v < (1 << 20));
+    must_ok!(Ipv6FlowLabel::try_new(v))
+}
+
+fn eth2_header() -> Ethernet2Header {
+    Ethernet2Header { source: any(), destination: any(), ether_type: EtherType(any()) }
+}
+
+fn vlan_header() -> SingleVlanHeader {
+    SingleVlanHeader {
+        pcp: vlan_pcp(),
+        drop_eligible_indicator: any_bool(),
+        vlan_id: vlan_id(),
+        ether_type: EtherType(any()),
+    }
+}
+
+fn udp_header() -> UdpHeader {
+    UdpHeader { source_port: any(), destination_port: any(), length: any(), checksum: any() }
+}
+
+/// all field values; options of `words` * 4 bytes with arbitrary content
+fn ipv4_header_w(words: usize) -> Ipv4Header {
+    let data: [u8; 40] = any();
+    let options: Ipv4Options = must_ok!(Ipv4Options::try_from(&data[..words * 4]));
+    Ipv4Header {
+        dscp: dscp(),
+        ecn: ecn(),
+        total_len: any(),
+        identification: any(),
+        dont_fragment: any_bool(),
+        more_fragments: any_bool(),
+        fragment_offset: frag_offset(),
+        time_to_live: any(),
+        protocol: IpNumber(any()),
+        header_checksum: any(),
+        source: any(),
+        destination: any(),
+        options,
+    }
+}
+
+fn sll_header() -> LinuxSllHeader {
+    let pt: u16 = any();
+    assume(pt <= 7);
+    let packet_type = must_ok!(LinuxSllPacketType::try_from(pt));
+    let k: u8 = any();
+    assume(k < 5);
+    let v: u16 = any();
+    // linux/if_arp.h: ARPHRD_NETLINK 824, ARPHRD_IPGRE 778, ARPHRD_IEEE80211_RADIOTAP 803,
+    // ARPHRD_FRAD 770, ARPHRD_ETHER 1
+    let (arp, proto) = match k {
+        0 => (ArpHardwareId(824), LinuxSllProtocolType::NetlinkProtocolType(v)),
+        1 => (ArpHardwareId(778), LinuxSllProtocolType::GenericRoutingEncapsulationProtocolType(v)),
+        2 => (ArpHardwareId(803), LinuxSllProtocolType::Ignored(v)),
+        3 => (ArpHardwareId(770), LinuxSllProtocolType::Ignored(v)),
+        _ => (
+            ArpHardwareId(1),
+            match LinuxNonstandardEtherType::try_from(v) {
+                Ok(n) => LinuxSllProtocolType::LinuxNonstandardEtherType(n),
+                Err(()) => LinuxSllProtocolType::EtherType(EtherType(v)),
+            },
+        ),
+    };
+    LinuxSllHeader {
+        packet_type,
+        arp_hrd_type: arp,
+        sender_address_valid_length: any(),
+        sender_address: any(),
+        protocol_type: proto,
+    }
+}
+
+/// all four payload types, with/without SCI (header lengths 6, 8, 14, 16); `Unmodified` with
+/// short length 1 is excluded (inconsistent value, see C08)
+fn macsec_header() -> MacsecHeader {
+    let k: u8 = any();
+    assume(k < 4);
+    let ptype = match k {
+        0 => MacsecPType::Unmodified(EtherType(any())),
+        1 => MacsecPType::Modified,
+        2 => MacsecPType::Encrypted,
+        _ => MacsecPType::EncryptedUnmodified,
+    };
+    let an: u8 = any();
+    assume(an < 4);
+    let sl: u8 = any();
+    assume(sl < 64);
+    assume(!(k == 0 && sl == 1));
+    let has_sci = any_bool();
+    let sci: u64 = any();
+    MacsecHeader {
+        ptype,
+        endstation_id: any_bool(),
+        scb: any_bool(),
+        an: must_ok!(MacsecAn::try_new(an)),
+        short_len: must_ok!(MacsecShortLen::try_from_u8(sl)),
+        packet_nr: any(),
+        sci: if has_sci { Some(sci) } else { None },
+    }
+}
+
+fn ipv6_header() -> Ipv6Header {
+    Ipv6Header {
+        traffic_class: any(),
+        flow_label: flow_label(),
+        payload_length: any(),
+        next_header: IpNumber(any()),
+        hop_limit: any(),
+        source: any(),
+        destination: any(),
+    }
+}
+
+fn ipv6_frag_header() -> Ipv6FragmentHeader {
+    Ipv6FragmentHeader::new(IpNumber(any()), frag_offset(), any_bool(), any())
+}
+
+/// all field values; options of `words` * 4 bytes with arbitrary content
+fn tcp_header_w(words: usize) -> TcpHeader {
+    let data: [u8; 40] = any();
+    let options = must_ok!(TcpOptions::try_from_slice(&data[..words * 4]));
+    TcpHeader {
+        source_port: any(),
+        destination_port: any(),
+        sequence_number: any(),
+        acknowledgment_number: any(),
+        ns: any_bool(),
+        fin: any_bool(),
+        syn: any_bool(),
+        rst: any_bool(),
+        psh: any_bool(),
+        ack: any_bool(),
+        urg: any_bool(),
+        ece: any_bool(),
+        cwr: any_bool(),
+        window_size: any(),
+        checksum: any(),
+        urgent_pointer: any(),
+        options,
+    }
+}
+
+/// every value the decoder can produce (all variants, C08: decode . encode = id on them),
+/// 8 byte messages and the 20 byte timestamp messages
+fn icmpv4_header() -> Icmpv4Header {
+    let b: [u8; 20] = any();
+    let (h, _) = must_ok!(Icmpv4Header::from_slice(&b));
+    h
+}
+
+/// every value the decoder can produce (all variants)
+fn icmpv6_header() -> Icmpv6Header {
+    let b: [u8; 8] = any();
+    let (h, _) = must_ok!(Icmpv6Header::from_slice(&b));
+    h
+}
+
+/// concrete ICV length of K words, after having held 8 bytes (stale bytes behind the ICV)
+fn auth_header_k<const K: usize>() -> IpAuthHeader {
+    let data: [u8; 8] = any();
+    let mut h = must_ok!(IpAuthHeader::new(IpNumber(any()), any(), any(), &data));
+    let data: [u8; 8] = any();
+    must_ok!(h.set_raw_icv(&data[..4 * K]));
+    h
+}
+
+/// ICV of 0, 4 or 8 bytes
+fn auth_header() -> IpAuthHeader {
+    let k = any_le(2);
+    let data: [u8; 8] = any();
+    must_ok!(IpAuthHeader::new(IpNumber(any()), any(), any(), &data[..4 * k]))
+}
+
+/// concrete length field K (payload 6 + 8 K bytes), after having held 14 bytes
+fn raw_ext_k<const K: usize>() -> Ipv6RawExtHeader {
+    let data: [u8; 14] = any();
+    let mut h = must_ok!(Ipv6RawExtHeader::new_raw(IpNumber(any()), &data));
+    let data: [u8; 14] = any();
+    must_ok!(h.set_payload(&data[..6 + 8 * K]));
+    h
+}
+
+/// concrete length field 0 (8 byte header)
+fn raw_ext_0() -> Ipv6RawExtHeader {
+    let data: [u8; 6] = any();
+    must_ok!(Ipv6RawExtHeader::new_raw(IpNumber(any()), &data))
+}
+
+/// concrete address sizes (symbolic sizes exhaust CBMC's memory inside ArpPacket, see C08)
+fn arp_fixed<const H: usize, const P: usize>() -> ArpPacket {
+    let a: [u8; H] = any();
+    let b: [u8; P] = any();
+    let c: [u8; H] = any();
+    let d: [u8; P] = any();
+    must_ok!(ArpPacket::new(ArpHardwareId(any()), EtherType(any()), ArpOperation(any()), &a, &b, &c, &d))
+}
+
+// ------------------------------------------------------------------------------------------
+// write: single part serialisers (one `write_all` of `to_bytes()`)
+// ------------------------------------------------------------------------------------------
+
+pub fn w_eth2() {
+    let h = eth2_header();
+    fault_write::<14, _, _, _>(h.header_len(), |w| h.write(w), is_wfault);
+}
+
+pub fn w_vlan() {
+    let h = vlan_header();
+    fault_write::<4, _, _, _>(h.header_len(), |w| h.write(w), is_wfault);
+}
+
+pub fn w_sll() {
+    let h = sll_header();
+    fault_write::<16, _, _, _>(h.header_len(), |w| h.write(w), is_wfault);
+}
+
+pub fn w_macsec() {
+    let h = macsec_header();
+    let hl = h.header_len();
+    witness!(hl == 6, "len_6");
+    witness!(hl == 16, "len_16");
+    fault_write::<16, _, _, _>(hl, |w| h.write(w), is_wfault);
+}
+
+/// LinkHeader dispatches to the two link headers
+pub fn w_link_header() {
+    let h = if any_bool() { LinkHeader::Ethernet2(eth2_header()) } else { LinkHeader::LinuxSll(sll_header()) };
+    witness!(matches!(h, LinkHeader::LinuxSll(_)), "sll");
+    witness!(matches!(h, LinkHeader::Ethernet2(_)), "eth2");
+    fault_write::<16, _, _, _>(h.header_len(), |w| h.write(w), is_wfault);
+}
+
+pub fn w_arp_6_4() {
+    let h = arp_fixed::<6, 4>();
+    fault_write::<28, _, _, _>(h.packet_len(), |w| h.write(w), is_wfault);
+}
+
+pub fn w_ipv6() {
+    let h = ipv6_header();
+    fault_write::<40, _, _, _>(h.header_len(), |w| h.write(w), is_wfault);
+}
+
+pub fn w_ipv6_frag() {
+    let h = ipv6_frag_header();
+    fault_write::<8, _, _, _>(h.header_len(), |w| h.write(w), is_wfault);
+}
+
+pub fn w_udp() {
+    let h = udp_header();
+    fault_write::<8, _, _, _>(h.header_len(), |w| h.write(w), is_wfault);
+}
+
+/// the std default `write_all` loop over `write` (short write, then the error) instead of the
+/// double's own `write_all`: same observable behaviour
+pub struct ViaWrite<'a, const K: usize>(pub &'a mut FailAt<K>);
+impl<'a, const K: usize> io::Write for ViaWrite<'a, K> {
+    fn write(&mut self, data: &[u8]) -> io::Result<usize> {
+        self.0.write(data)
+    }
+    fn flush(&mut self) -> io::Result<()> {
+        Ok(())
+    }
+}
+
+pub fn w_udp_std_loop() {
+    let h = udp_header();
+    fault_write::<8, _, _, _>(h.header_len(), |w| h.write(&mut ViaWrite(w)), is_wfault);
+}
+
+pub fn w_icmpv4() {
+    let h = icmpv4_header();
+    let hl = h.header_len();
+    witness!(hl == 20, "timestamp");
+    witness!(hl == 8, "short");
+    fault_write::<20, _, _, _>(hl, |w| h.write(w), is_wfault);
+}
+
+pub fn w_icmpv6() {
+    let h = icmpv6_header();
+    fault_write::<8, _, _, _>(h.header_len(), |w| h.write(w), is_wfault);
+}
+
+// ------------------------------------------------------------------------------------------
+// write: multi part serialisers (a fault can hit inside every part and exactly between parts)
+// ------------------------------------------------------------------------------------------
+
+/// IPv4: 20 byte base header and options are two separate writes; `write` computes the checksum
+fn w_ipv4_case(words: usize) {
+    let h = ipv4_header_w(words);
+    let raw = any_bool();
+    witness!(raw, "write_raw");
+    witness!(!raw, "write");
+    fault_write::<28, _, _, _>(h.header_len(), |w| if raw { h.write_raw(w) } else { h.write(w) }, is_wfault);
+}
+pub fn w_ipv4_opt0() {
+    w_ipv4_case(0)
+}
+pub fn w_ipv4_opt4() {
+    w_ipv4_case(1)
+}
+pub fn w_ipv4_opt8() {
+    w_ipv4_case(2)
+}
+
+/// TCP: 20 byte base header and options are two separate writes
+pub fn w_tcp() {
+    let words = any_le(2);
+    let h = tcp_header_w(words);
+    witness!(words == 0, "no_options");
+    witness!(words == 2, "options");
+    fault_write::<28, _, _, _>(h.header_len(), |w| h.write(w), is_wfault);
+}
+
+/// authentication header: 12 fixed bytes, then the ICV
+pub fn w_auth() {
+    let h = auth_header();
+    let hl = h.header_len();
+    witness!(hl == 12, "icv_0");
+    witness!(hl == 20, "icv_8");
+    fault_write::<20, _, _, _>(hl, |w| h.write(w), is_wfault);
+}
+
+/// generic IPv6 extension header: 2 fixed bytes, then the payload (payload length concrete per
+/// harness: a symbolic copy length into the 2046 byte buffer exhausts CBMC's memory)
+pub fn w_raw_ext_8() {
+    let h = raw_ext_k::<0>();
+    fault_write::<8, _, _, _>(h.header_len(), |w| h.write(w), is_wfault);
+}
+pub fn w_raw_ext_16() {
+    let h = raw_ext_k::<1>();
+    fault_write::<16, _, _, _>(h.header_len(), |w| h.write(w), is_wfault);
+}
+
+/// TransportHeader dispatches to the four transport headers
+pub fn w_transport_header() {
+    let k: u8 = any();
+    assume(k < 4);
+    let h = match k {
+        0 => TransportHeader::Udp(udp_header()),
+        1 => TransportHeader::Tcp(tcp_header_w(any_le(1))),
+        2 => TransportHeader::Icmpv4(icmpv4_header()),
+        _ => TransportHeader::Icmpv6(icmpv6_header()),
+    };
+    witness!(k == 0, "udp");
+    witness!(k == 1, "tcp");
+    witness!(k == 2, "icmpv4");
+    witness!(k == 3, "icmpv6");
+    fault_write::<24, _, _, _>(h.header_len(), |w| h.write(w), is_wfault);
+}
+
+fn is_wfault_v6exts(e: err::ipv6_exts::HeaderWriteError) -> bool {
+    let r = match &e {
+        err::ipv6_exts::HeaderWriteError::Io(e) => e.kind() == WKIND,
+        _ => false,
+    };
+    core::mem::forget(e);
+    r
+}
+fn is_wfault_ip(e: err::ip::HeadersWriteError) -> bool {
+    let r = match &e {
+        err::ip::HeadersWriteError::Io(e) => e.kind() == WKIND,
+        _ => false,
+    };
+    core::mem::forget(e);
+    r
+}
+
+/// IpHeaders, IPv4 variant without extension header: base header, options
+pub fn w_ip_headers_v4_opt0() {
+    let v = IpHeaders::Ipv4(ipv4_header_w(0), Ipv4Extensions { auth: None });
+    fault_write::<20, _, _, _>(v.header_len(), |w| v.write(w), is_wfault_ip);
+}
+
+const UDP_NR: IpNumber = IpNumber(17);
+
+/// Ipv6Extensions chain: fragment -> UDP
+pub fn w_ipv6_exts_frag() {
+    let mut v = Ipv6Extensions { fragment: Some(ipv6_frag_header()), ..Default::default() };
+    let first = v.set_next_headers(UDP_NR);
+    fault_write::<8, _, _, _>(v.header_len(), |w| v.write(w, first), is_wfault_v6exts);
+}
+
+/// Ipv6Extensions chain: hop-by-hop (8 bytes) -> fragment -> UDP: fault inside each member and
+/// exactly between them
+pub fn w_ipv6_exts_hbh_frag() {
+    let mut v = Ipv6Extensions {
+        hop_by_hop_options: Some(raw_ext_0()),
+        fragment: Some(ipv6_frag_header()),
+        ..Default::default()
+    };
+    let first = v.set_next_headers(UDP_NR);
+    fault_write::<16, _, _, _>(v.header_len(), |w| v.write(w, first), is_wfault_v6exts);
+}
+
+/// Ipv6Extensions chain: routing (8 bytes) -> final destination options (8 bytes) -> UDP (the
+/// `route_written` branch of the walk)
+pub fn w_ipv6_exts_route_fdest() {
+    let mut v = Ipv6Extensions {
+        routing: Some(Ipv6RoutingExtensions { routing: raw_ext_0(), final_destination_options: Some(raw_ext_0()) }),
+        ..Default::default()
+    };
+    let first = v.set_next_headers(UDP_NR);
+    fault_write::<16, _, _, _>(v.header_len(), |w| v.write(w, first), is_wfault_v6exts);
+}
+
+// ------------------------------------------------------------------------------------------
+// read: reader that fails after k bytes
+// ------------------------------------------------------------------------------------------
+
+/// counters of the reader double, observable while the reader itself is mutably borrowed
+pub struct RdStat {
+    /// bytes delivered so far
+    pub pos: core::cell::Cell<usize>,
+    /// the fault has been reported
+    pub failed: core::cell::Cell<bool>,
+    /// a read was attempted after the fault had been reported
+    pub after: core::cell::Cell<bool>,
+}
+impl RdStat {
+    pub fn new() -> Self {
+        RdStat { pos: core::cell::Cell::new(0), failed: core::cell::Cell::new(false), after: core::cell::Cell::new(false) }
+    }
+}
+
+/// delivers exactly the first `k` bytes of `data` (short read allowed), then reports the fault
+/// once; later reads are recorded (`after`) and "succeed" without touching the buffer
+pub struct FailRd<'a, const K: usize> {
+    data: [u8; K],
+    k: usize,
+    st: &'a RdStat,
+}
+
+impl<'a, const K: usize> FailRd<'a, K> {
+    pub fn new(data: &[u8; K], k: usize, st: &'a RdStat) -> Self {
+        assert!(k <= K);
+        FailRd { data: *data, k, st }
+    }
+    #[inline]
+    fn take(&mut self, buf: &mut [u8]) -> usize {
+        let pos = self.st.pos.get();
+        let room = self.k - pos;
+        let n = if buf.len() < room { buf.len() } else { room };
+        buf[..n].copy_from_slice(&self.data[pos..pos + n]);
+        self.st.pos.set(pos + n);
+        n
+    }
+}
+
+#[inline]
+fn rfault() -> io::Error {
+    io::Error::from(RKIND)
+}
+
+impl<'a, const K: usize> io::Read for FailRd<'a, K> {
+    fn read(&mut self, buf: &mut [u8]) -> io::Result<usize> {
+        if buf.is_empty() {
+            return Ok(0);
+        }
+        if self.st.failed.get() {
+            self.st.after.set(true);
+            return Ok(buf.len());
+        }
+        if self.st.pos.get() == self.k {
+            self.st.failed.set(true);
+            return Err(rfault());
+        }
+        Ok(self.take(buf))
+    }
+    /// observably the default `read_exact` (loop over `read`) without the loop
+    fn read_exact(&mut self, buf: &mut [u8]) -> io::Result<()> {
+        if buf.is_empty() {
+            return Ok(());
+        }
+        if self.st.failed.get() {
+            self.st.after.set(true);
+            return Ok(());
+        }
+        let n = self.take(buf);
+        if n < buf.len() {
+            self.st.failed.set(true);
+            return Err(rfault());
+        }
+        Ok(())
+    }
+}
+
+impl<'a, const K: usize> io::Seek for FailRd<'a, K> {
+    fn seek(&mut self, _: io::SeekFrom) -> io::Result<u64> {
+        Ok(self.st.pos.get() as u64)
+    }
+}
+
+fn is_rfault(e: &io::Error) -> bool {
+    e.kind() == RKIND
+}
+
+/// the fault-free encoding of a value: the real `write` into a writer that never fails
+fn encode<const L: usize, E, F: Fn(&mut FailAt<L>) -> Result<(), E>>(run: F) -> ([u8; L], usize) {
+    let mut full = FailAt::<L>::new(L);
+    match run(&mut full) {
+        Ok(()) => {}
+        Err(e) => {
+            core::mem::forget(e);
+            panic!("C16: fault-free run must succeed");
+        }
+    }
+    assert!(!full.failed && !full.overflow);
+    (full.buf, full.pos)
+}
+
+/// Decides one decoder: the reader holds the `len` byte encoding of a well formed value and
+/// fails after k <= len bytes.
+///   k <  len: Err carrying the reader's error (never Ok, never a content error: the bytes
+///             delivered are the beginning of a valid header), all k bytes were pulled;
+///   k == len: Ok, exactly len bytes pulled.
+fn fault_read<const L: usize, T, E, F, G>(enc: &[u8; L], len: usize, run: F, fault: G)
+where
+    F: Fn(&mut FailRd<L>) -> Result<T, E>,
+    G: Fn(&E) -> bool,
+{
+    assert!(len <= L);
+    let k = any_le(L);
+    assume(k <= len);
+    let st = RdStat::new();
+    let mut r = FailRd::<L>::new(enc, k, &st);
+    let res = run(&mut r);
+    witness!(k == 0, "fault_at_start");
+    witness!(k > 0 && k < len, "fault_inside");
+    witness!(k + 1 == len, "one_byte_short");
+    witness!(k == len, "no_fault");
+    if k < len {
+        match res {
+            Ok(v) => {
+                core::mem::forget(v);
+                panic!("C16: the fault was swallowed (Ok returned)");
+            }
+            Err(e) => {
+                assert!(fault(&e), "C16: the error returned is the reader's error");
+                core::mem::forget(e);
+            }
+        }
+        assert!(st.failed.get(), "C16: fault reported");
+        assert!(!st.after.get(), "C16: nothing is read after the fault");
+        assert!(st.pos.get() == k);
+    } else {
+        match res {
+            Ok(v) => core::mem::forget(v),
+            Err(e) => {
+                core::mem::forget(e);
+                panic!("C16: no fault, result must be Ok");
+            }
+        }
+        assert!(!st.failed.get());
+        assert!(st.pos.get() == len, "C16: exactly the header is consumed");
+    }
+}
+
+pub fn r_eth2() {
+    let h = eth2_header();
+    let (enc, len) = encode::<14, _, _>(|w| h.write(w));
+    fault_read(&enc, len, |r| Ethernet2Header::read(r), is_rfault);
+}
+
+pub fn r_vlan() {
+    let h = vlan_header();
+    let (enc, len) = encode::<4, _, _>(|w| h.write(w));
+    fault_read(&enc, len, |r| SingleVlanHeader::read(r), is_rfault);
+}
+
+pub fn r_sll() {
+    let h = sll_header();
+    let (enc, len) = encode::<16, _, _>(|w| h.write(w));
+    fault_read(&enc, len, |r| LinuxSllHeader::read(r), |e| match e {
+        err::ReadError::Io(e) => is_rfault(e),
+        _ => false,
+    });
+}
+
+/// MACsec: 6 bytes, then 2 / 8 / 10 more depending on the first byte
+pub fn r_macsec() {
+    let h = macsec_header();
+    let (enc, len) = encode::<16, _, _>(|w| h.write(w));
+    witness!(len == 6, "len_6");
+    witness!(len == 16, "len_16");
+    fault_read(&enc, len, |r| MacsecHeader::read(r), |e| match e {
+        err::macsec::HeaderReadError::Io(e) => is_rfault(e),
+        _ => false,
+    });
+}
+
+/// ARP: 8 fixed bytes, then four address fields read one by one
+pub fn r_arp_6_4() {
+    let h = arp_fixed::<6, 4>();
+    let (enc, len) = encode::<28, _, _>(|w| h.write(w));
+    fault_read(&enc, len, |r| ArpPacket::read(r), is_rfault);
+}
+
+/// IPv4: version byte, 19 bytes, options
+fn r_ipv4_case(words: usize) {
+    let h = ipv4_header_w(words);
+    let (enc, len) = encode::<28, _, _>(|w| h.write_raw(w));
+    fault_read(&enc, len, |r| Ipv4Header::read(r), |e| match e {
+        err::ipv4::HeaderReadError::Io(e) => is_rfault(e),
+        _ => false,
+    });
+}
+pub fn r_ipv4_opt0() {
+    r_ipv4_case(0)
+}
+pub fn r_ipv4_opt8() {
+    r_ipv4_case(2)
+}
+
+/// IPv6: version byte, then 39 bytes
+pub fn r_ipv6() {
+    let h = ipv6_header();
+    let (enc, len) = encode::<40, _, _>(|w| h.write(w));
+    fault_read(&enc, len, |r| Ipv6Header::read(r), |e| match e {
+        err::ipv6::HeaderReadError::Io(e) => is_rfault(e),
+        _ => false,
+    });
+}
+
+pub fn r_ipv6_frag() {
+    let h = ipv6_frag_header();
+    let (enc, len) = encode::<8, _, _>(|w| h.write(w));
+    fault_read(&enc, len, |r| Ipv6FragmentHeader::read(r), is_rfault);
+}
+
+/// generic extension header: 2 bytes, then the payload
+pub fn r_raw_ext_16() {
+    let h = raw_ext_k::<1>();
+    let (enc, len) = encode::<16, _, _>(|w| h.write(w));
+    fault_read(&enc, len, |r| Ipv6RawExtHeader::read(r), is_rfault);
+}
+
+/// authentication header: 12 bytes, then the ICV
+pub fn r_auth() {
+    let h = auth_header();
+    let (enc, len) = encode::<20, _, _>(|w| h.write(w));
+    witness!(len == 12, "icv_0");
+    witness!(len == 20, "icv_8");
+    fault_read(&enc, len, |r| IpAuthHeader::read(r), |e| match e {
+        err::ip_auth::HeaderReadError::Io(e) => is_rfault(e),
+        _ => false,
+    });
+}
+
+/// Ipv4Extensions announced by protocol number 51: one authentication header
+pub fn r_ipv4_exts_auth() {
+    let h = auth_header_k::<1>();
+    let (enc, len) = encode::<16, _, _>(|w| h.write(w));
+    fault_read(&enc, len, |r| Ipv4Extensions::read(r, IpNumber(51)), |e| match e {
+        err::ip_auth::HeaderReadError::Io(e) => is_rfault(e),
+        _ => false,
+    });
+}
+
+pub fn r_udp() {
+    let h = udp_header();
+    let (enc, len) = encode::<8, _, _>(|w| h.write(w));
+    fault_read(&enc, len, |r| UdpHeader::read(r), is_rfault);
+}
+
+/// TCP: 20 bytes, then the options
+pub fn r_tcp() {
+    let words = any_le(2);
+    let h = tcp_header_w(words);
+    let (enc, len) = encode::<28, _, _>(|w| h.write(w));
+    witness!(len == 20, "no_options");
+    witness!(len == 28, "options");
+    fault_read(&enc, len, |r| TcpHeader::read(r), |e| match e {
+        err::tcp::HeaderReadError::Io(e) => is_rfault(e),
+        _ => false,
+    });
+}
+
+/// ICMPv4: 8 bytes, timestamp messages 12 more
+pub fn r_icmpv4() {
+    let h = icmpv4_header();
+    let (enc, len) = encode::<20, _, _>(|w| h.write(w));
+    witness!(len == 20, "timestamp");
+    witness!(len == 8, "short");
+    fault_read(&enc, len, |r| Icmpv4Header::read(r), is_rfault);
+}
+
+pub fn r_icmpv6() {
+    let h = icmpv6_header();
+    let (enc, len) = encode::<8, _, _>(|w| h.write(w));
+    fault_read(&enc, len, |r| Icmpv6Header::read(r), is_rfault);
+}
+
+// ------------------------------------------------------------------------------------------
+// LimitedReader
+// ------------------------------------------------------------------------------------------
+
+const LR_DATA: usize = 12;
+const LR_BUF: usize = 5;
+
+/// Any limit, an inner reader holding 12 bytes that fails after k of them, up to three
+/// `read_exact` calls of symbolic sizes 0..=5 with an optional `start_layer` before each:
+/// the inner reader never delivers more than the limit; a request over the remaining budget
+/// is refused with a length error *before* anything is pulled; otherwise the call is the inner
+/// reader's (bytes or its fault).
+pub fn limited_reader() {
+    use etherparse::err::io::LimitedReadError;
+    use etherparse::err::Layer;
+    use etherparse::io::LimitedReader;
+    let data: [u8; LR_DATA] = any();
+    let k = any_le(LR_DATA);
+    let st = RdStat::new();
+    let inner = FailRd::<LR_DATA>::new(&data, k, &st);
+    let limit: usize = any();
+    let offset: usize = any();
+    assume(offset <= u32::MAX as usize);
+    let mut lr = LimitedReader::new(inner, limit, LenSource::Ipv6HeaderPayloadLen, offset, Layer::Ipv6Header);
+    // model: budget of the current layer, bytes read inside the current layer
+    let mut budget = limit;
+    let mut in_layer = 0usize;
+    let mut call = 0;
+    while call < 3 {
+        if any_bool() {
+            lr.start_layer(Layer::Ipv6ExtHeader);
+            budget -= in_layer;
+            in_layer = 0;
+            witness!(call > 0, "start_layer_after_read");
+        }
+        let n = any_le(LR_BUF);
+        let mut buf = [0u8; LR_BUF];
+        let before = st.pos.get();
+        let res = lr.read_exact(&mut buf[..n]);
+        let after = st.pos.get();
+        assert!(after <= limit, "C16: never more bytes pulled than the limit allows");
+        if n > budget - in_layer {
+            witness!(true, "len_error");
+            witness!(n == budget - in_layer + 1, "len_error_one_over");
+            witness!(call == 2 && before > 0, "len_error_after_reads");
+            match res {
+                Err(LimitedReadError::Len(e)) => {
+                    assert!(e.required_len == in_layer + n);
+                    assert!(e.len == budget);
+                }
+                other => {
+                    core::mem::forget(other);
+                    panic!("C16: a request over the limit is a length error");
+                }
+            }
+            assert!(after == before, "C16: the limit is checked before anything is pulled");
+        } else if n > k - before {
+            witness!(true, "io_error");
+            match res {
+                Err(LimitedReadError::Io(e)) => {
+                    assert!(is_rfault(&e));
+                    core::mem::forget(e);
+                }
+                other => {
+                    core::mem::forget(other);
+                    panic!("C16: the inner reader's fault is reported");
+                }
+            }
+            assert!(after == k);
+            assert!(!st.after.get());
+            // the state of a reader after an I/O error is unspecified: end of the sequence
+            core::mem::forget(lr);
+            return;
+        } else {
+            match res {
+                Ok(()) => {}
+                Err(e) => {
+                    core::mem::forget(e);
+                    panic!("C16: request inside limit and data must succeed");
+                }
+            }
+            assert!(after == before + n);
+            let mut j = 0;
+            while j < LR_BUF {
+                if j < n {
+                    assert!(buf[j] == data[before + j]);
+                }
+                j += 1;
+            }
+            in_layer += n;
+            witness!(call == 2 && after == limit && limit > 0, "limit_exactly_used");
+        }
+        call += 1;
+    }
+    let inner = lr.take_reader();
+    assert!(st.pos.get() <= limit);
+    core::mem::forget(inner);
+}
+
+/// `read_limited` of the three extension header types: limit m and fault position k both
+/// symbolic. Ok iff both allow the whole header; limit not binding -> the reader's error;
+/// no fault -> length error; never more than min(m, k) bytes pulled.
+fn fault_read_limited<const L: usize, T, E, F, G>(enc: &[u8; L], len: usize, run: F, classify: G)
+where
+    F: Fn(&mut etherparse::io::LimitedReader<FailRd<L>>) -> Result<T, E>,
+    G: Fn(&E) -> u8, // 1 = the reader's I/O error, 2 = length error, 0 = anything else
+{
+    use etherparse::err::Layer;
+    assert!(len <= L);
+    let k = any_le(L);
+    assume(k <= len);
+    let m = any_le(L + 1);
+    assume(m <= len + 1);
+    let st = RdStat::new();
+    let inner = FailRd::<L>::new(enc, k, &st);
+    let mut lr = etherparse::io::LimitedReader::new(inner, m, LenSource::Ipv6HeaderPayloadLen, 40, Layer::Ipv6Header);
+    let res = run(&mut lr);
+    witness!(k < len && m >= len, "fault_only");
+    witness!(k == len && m < len, "limit_only");
+    witness!(k == len && m + 1 == len, "limit_one_short");
+    witness!(k < len && m < len, "both");
+    witness!(k == len && m > len, "neither");
+    match res {
+        Ok(v) => {
+            core::mem::forget(v);
+            assert!(k == len && m >= len, "C16: Ok only if limit and reader allow the whole header");
+            assert!(st.pos.get() == len);
+        }
+        Err(e) => {
+            let c = classify(&e);
+            core::mem::forget(e);
+            assert!(k < len || m < len, "C16: nothing in the way, result must be Ok");
+            assert!(c == 1 || c == 2, "C16: I/O or length error");
+            if m >= len {
+                assert!(c == 1, "C16: limit not binding: the reader's error");
+            }
+            if k == len {
+                assert!(c == 2, "C16: no fault: length error");
+            }
+            if c == 2 {
+                assert!(!st.failed.get());
+            }
+        }
+    }
+    assert!(st.pos.get() <= m, "C16: never more bytes pulled than the limit allows");
+    assert!(!st.after.get());
+    core::mem::forget(lr);
+}
+
+fn classify_limited(e: &etherparse::err::io::LimitedReadError) -> u8 {
+    match e {
+        etherparse::err::io::LimitedReadError::Io(e) => {
+            if is_rfault(e) {
+                1
+            } else {
+                0
+            }
+        }
+        etherparse::err::io::LimitedReadError::Len(l) => {
+            if l.required_len > l.len {
+                2
+            } else {
+                0
+            }
+        }
+    }
+}
+
+pub fn rl_ipv6_frag() {
+    let h = ipv6_frag_header();
+    let (enc, len) = encode::<8, _, _>(|w| h.write(w));
+    fault_read_limited(&enc, len, |r| Ipv6FragmentHeader::read_limited(r), classify_limited);
+}
+
+pub fn rl_raw_ext_16() {
+    let h = raw_ext_k::<1>();
+    let (enc, len) = encode::<16, _, _>(|w| h.write(w));
+    fault_read_limited(&enc, len, |r| Ipv6RawExtHeader::read_limited(r), classify_limited);
+}
+
+pub fn rl_auth() {
+    let h = auth_header();
+    let (enc, len) = encode::<20, _, _>(|w| h.write(w));
+    fault_read_limited(&enc, len, |r| IpAuthHeader::read_limited(r), |e| match e {
+        err::ip_auth::HeaderLimitedReadError::Io(e) => {
+            if is_rfault(e) {
+                1
+            } else {
+                0
+            }
+        }
+        err::ip_auth::HeaderLimitedReadError::Len(l) => {
+            if l.required_len > l.len {
+                2
+            } else {
+                0
+            }
+        }
+        _ => 0,
+    });
+}
+
+// ------------------------------------------------------------------------------------------
+// write_to_slice: output slice of symbolic length in an object of exactly that size
+// ------------------------------------------------------------------------------------------
+
+/// `len <= N` symbolic bytes in a heap object of exactly `len` bytes, handed out mutably; a
+/// write outside the slice is outside the object (CBMC pointer check). `orig` keeps the
+/// initial content.
+pub struct TightMut<const N: usize> {
+    ptr: *mut u8,
+    len: usize,
+    pub orig: [u8; N],
+}
+
+impl<const N: usize> TightMut<N> {
+    pub fn new(len: usize) -> Self {
+        use std::alloc::{alloc, Layout};
+        assume(len <= N);
+        let orig: [u8; N] = any();
+        if len == 0 {
+            return TightMut { ptr: core::ptr::NonNull::<u8>::dangling().as_ptr(), len: 0, orig };
+        }
+        let ptr = unsafe { alloc(Layout::from_size_align(len, 1).unwrap()) };
+        assume(!ptr.is_null());
+        unsafe { core::ptr::copy_nonoverlapping(orig.as_ptr(), ptr, len) };
+        TightMut { ptr, len, orig }
+    }
+    pub fn base(&self) -> usize {
+        self.ptr as usize
+    }
+    pub fn slice_mut(&mut self) -> &mut [u8] {
+        unsafe { core::slice::from_raw_parts_mut(self.ptr, self.len) }
+    }
+    pub fn slice(&self) -> &[u8] {
+        unsafe { core::slice::from_raw_parts(self.ptr, self.len) }
+    }
+    /// Ok case: the first `n` bytes are the encoding, everything behind is untouched
+    pub fn check_written(&self, enc: &[u8], n: usize) {
+        assert!(n <= self.len);
+        let out = self.slice();
+        let mut i = 0;
+        while i < N {
+            if i < n {
+                assert!(out[i] == enc[i], "C16: the slice starts with the encoding");
+            } else if i < self.len {
+                assert!(out[i] == self.orig[i], "C16: bytes behind the encoding are untouched");
+            }
+            i += 1;
+        }
+    }
+    /// Err case: what was written before the fault is a prefix of the encoding, i.e. there is a
+    /// j with out[..j] == enc[..j] and out[j..] untouched
+    pub fn check_prefix(&self, enc: &[u8]) {
+        let out = self.slice();
+        let mut in_prefix = true;
+        let mut i = 0;
+        while i < N {
+            if i < self.len {
+                if in_prefix && i < enc.len() && out[i] == enc[i] {
+                    // written (or untouched and equal by coincidence)
+                } else {
+                    in_prefix = false;
+                    assert!(out[i] == self.orig[i], "C16: behind the written prefix nothing is touched");
+                }
+            }
+            i += 1;
+        }
+    }
+}
+
+impl<const N: usize> Drop for TightMut<N> {
+    fn drop(&mut self) {
+        if self.len != 0 {
+            unsafe { std::alloc::dealloc(self.ptr, std::alloc::Layout::from_size_align(self.len, 1).unwrap()) }
+        }
+    }
+}
+
+pub fn slice_eth2() {
+    use etherparse::err::Layer;
+    let h = eth2_header();
+    // fault-free: the same function into a slice that is large enough
+    let mut big = [0u8; 15];
+    let rest = must_ok!(h.write_to_slice(&mut big)).len();
+    let need = 15 - rest;
+    assert!(need == h.header_len());
+    let len = any_le(need + 1);
+    let mut t = TightMut::<15>::new(len);
+    let base = t.base();
+    witness!(len == 0, "empty_slice");
+    witness!(len + 1 == need, "one_byte_short");
+    witness!(len == need, "exact");
+    witness!(len == need + 1, "one_byte_more");
+    match h.write_to_slice(t.slice_mut()) {
+        Ok(rest) => {
+            assert!(len >= need, "C16: too short a slice must not report success");
+            assert!(rest.len() == len - need);
+            assert!(rest.as_ptr() as usize == base + need, "C16: the unused part follows the header");
+            t.check_written(&big, need);
+        }
+        Err(e) => {
+            assert!(len < need, "C16: the slice is large enough");
+            assert!(e.required_len == need, "C16: space error states the real required length");
+            assert!(e.len == len);
+            assert!(e.layer == Layer::Ethernet2Header);
+            assert!(e.layer_start_offset == 0);
+            t.check_prefix(&big[..need]);
+        }
+    }
+}
+
+pub fn slice_sll() {
+    use etherparse::err::Layer;
+    let h = sll_header();
+    let mut big = [0u8; 17];
+    let rest = must_ok!(h.write_to_slice(&mut big)).len();
+    let need = 17 - rest;
+    assert!(need == h.header_len());
+    let len = any_le(need + 1);
+    let mut t = TightMut::<17>::new(len);
+    let base = t.base();
+    witness!(len == 0, "empty_slice");
+    witness!(len + 1 == need, "one_byte_short");
+    witness!(len == need, "exact");
+    witness!(len == need + 1, "one_byte_more");
+    match h.write_to_slice(t.slice_mut()) {
+        Ok(rest) => {
+            assert!(len >= need, "C16: too short a slice must not report success");
+            assert!(rest.len() == len - need);
+            assert!(rest.as_ptr() as usize == base + need, "C16: the unused part follows the header");
+            t.check_written(&big, need);
+        }
+        Err(e) => {
+            assert!(len < need, "C16: the slice is large enough");
+            assert!(e.required_len == need, "C16: space error states the real required length");
+            assert!(e.len == len);
+            assert!(e.layer == Layer::LinuxSllHeader);
+            assert!(e.layer_start_offset == 0);
+            t.check_prefix(&big[..need]);
+        }
+    }
+}
+
+/// canary twin: the output slice sits at a symbolic offset inside a larger array; every byte
+/// outside the slice keeps its value
+pub fn slice_eth2_embedded() {
+    let h = eth2_header();
+    let enc = h.to_bytes();
+    let mut arr: [u8; 32] = any();
+    let orig = arr;
+    let off = any_le(8);
+    let len = any_le(15);
+    let ok = h.write_to_slice(&mut arr[off..off + len]).is_ok();
+    witness!(ok && off > 0 && len == 15, "ok_with_surroundings");
+    witness!(!ok && len == 13, "one_byte_short");
+    assert!(ok == (len >= 14));
+    let mut i = 0;
+    while i < 32 {
+        if ok && i >= off && i < off + 14 {
+            assert!(arr[i] == enc[i - off]);
+        } else if !ok && i >= off && i < off + len {
+            assert!(arr[i] == orig[i] || arr[i] == enc[i - off]);
+        } else {
+            assert!(arr[i] == orig[i], "C16: canary bytes around the slice are untouched");
+        }
+        i += 1;
+    }
+}
+
+// ------------------------------------------------------------------------------------------
+// PacketBuilder
+// ------------------------------------------------------------------------------------------
+
+const PAY: usize = 4;
+
+/// parameters of Ethernet II + IPv4 + UDP (the builder is consumed by `write`, so it is rebuilt
+/// from the same values for every run)
+#[derive(Clone, Copy)]
+struct EthV4Udp {
+    mac_s: [u8; 6],
+    mac_d: [u8; 6],
+    ip_s: [u8; 4],
+    ip_d: [u8; 4],
+    ttl: u8,
+    sp: u16,
+    dp: u16,
+}
+impl EthV4Udp {
+    fn any() -> Self {
+        EthV4Udp { mac_s: any(), mac_d: any(), ip_s: any(), ip_d: any(), ttl: any(), sp: any(), dp: any() }
+    }
+    fn builder(&self) -> PacketBuilderStep<UdpHeader> {
+        PacketBuilder::ethernet2(self.mac_s, self.mac_d).ipv4(self.ip_s, self.ip_d, self.ttl).udp(self.sp, self.dp)
+    }
+}
+
+fn is_wfault_build(e: err::packet::BuildWriteError) -> bool {
+    let r = match &e {
+        err::packet::BuildWriteError::Io(e) => e.kind() == WKIND,
+        _ => false,
+    };
+    core::mem::forget(e);
+    r
+}
+
+/// builder `write`: Ethernet II (14) + IPv4 (20) + UDP (8) + payload of P bytes, fault at every
+/// byte (the payload length is concrete per harness: the builder moves a > 10 KB state by value
+/// and two runs with a symbolic payload length exceed the memory cap - measured)
+fn b_write_eth_v4_udp<const P: usize, const L: usize>() {
+    let p = EthV4Udp::any();
+    let pay: [u8; P] = any();
+    // RFC 894 / 791 / 768: 14 + 20 + 8 + payload
+    assert!(L == 42 + P);
+    fault_write::<L, _, _, _>(L, |w| p.builder().write(w, &pay), is_wfault_build);
+}
+pub fn b_write_eth_v4_udp_3() {
+    b_write_eth_v4_udp::<3, 45>()
+}
+
+/// builder `write_to_slice`: slice length 0..=size+1 (N = size + 1)
+fn b_slice_eth_v4_udp<const P: usize, const N: usize>() {
+    use etherparse::err::packet::BuildSliceWriteError;
+    let p = EthV4Udp::any();
+    let pay: [u8; P] = any();
+    let size = 42 + P;
+    assert!(N == size + 1);
+    assert!(p.builder().size(P) == size);
+    let mut big = [0u8; N];
+    let n = must_ok!(p.builder().write_to_slice(&mut big, &pay));
+    assert!(n == size, "C16: fault-free run writes header lengths + payload");
+    let len = any_le(N);
+    let mut t = TightMut::<N>::new(len);
+    witness!(len == 0, "empty_slice");
+    witness!(len + 1 == size, "one_byte_short");
+    witness!(len == size, "exact");
+    witness!(len == size + 1, "one_byte_more");
+    witness!(len == 42, "headers_fit");
+    match p.builder().write_to_slice(t.slice_mut(), &pay) {
+        Ok(n) => {
+            assert!(len >= size, "C16: too short a slice must not report success");
+            assert!(n == size);
+            t.check_written(&big, size);
+        }
+        Err(BuildSliceWriteError::Space(required)) => {
+            assert!(len < size, "C16: the slice is large enough");
+            assert!(required == size, "C16: space error states the real required length");
+            t.check_prefix(&big[..size]);
+        }
+        Err(_) => panic!("C16: only a space error is possible"),
+    }
+}
+pub fn b_slice_eth_v4_udp_3() {
+    b_slice_eth_v4_udp::<3, 46>()
+}
+
+crate::harnesses! {
+    c16_w_eth2 = w_eth2; unwind 16,
+    c16_w_vlan = w_vlan; unwind 6,
+    c16_w_sll = w_sll; unwind 18,
+    c16_w_macsec = w_macsec; unwind 18,
+    c16_w_link_header = w_link_header; unwind 18,
+    c16_w_arp_6_4 = w_arp_6_4; unwind 30,
+    c16_w_ipv6 = w_ipv6; unwind 42,
+    c16_w_ipv6_frag = w_ipv6_frag; unwind 10,
+    c16_w_udp = w_udp; unwind 10,
+    c16_w_udp_std_loop = w_udp_std_loop; unwind 10,
+    c16_w_icmpv4 = w_icmpv4; unwind 22,
+    c16_w_icmpv6 = w_icmpv6; unwind 10,
+    c16_w_ipv4_opt0 = w_ipv4_opt0; unwind 30,
+    c16_w_ipv4_opt4 = w_ipv4_opt4; unwind 30,
+    c16_w_ipv4_opt8 = w_ipv4_opt8; unwind 30,
+    c16_w_tcp = w_tcp; unwind 30,
+    c16_w_auth = w_auth; unwind 22,
+    c16_w_raw_ext_8 = w_raw_ext_8; unwind 18,
+    c16_w_raw_ext_16 = w_raw_ext_16; unwind 18,
+    c16_w_transport_header = w_transport_header; unwind 26,
+    c16_w_ip_headers_v4_opt0 = w_ip_headers_v4_opt0; unwind 30,
+    c16_w_ipv6_exts_frag = w_ipv6_exts_frag; unwind 10,
+    c16_w_ipv6_exts_hbh_frag = w_ipv6_exts_hbh_frag; unwind 18,
+    c16_w_ipv6_exts_route_fdest = w_ipv6_exts_route_fdest; unwind 18,
+    c16_r_eth2 = r_eth2; unwind 16,
+    c16_r_vlan = r_vlan; unwind 6,
+    c16_r_sll = r_sll; unwind 18,
+    c16_r_macsec = r_macsec; unwind 18,
+    c16_r_arp_6_4 = r_arp_6_4; unwind 30,
+    c16_r_ipv4_opt0 = r_ipv4_opt0; unwind 30,
+    c16_r_ipv4_opt8 = r_ipv4_opt8; unwind 30,
+    c16_r_ipv6 = r_ipv6; unwind 42,
+    c16_r_ipv6_frag = r_ipv6_frag; unwind 10,
+    c16_r_raw_ext_16 = r_raw_ext_16; unwind 18,
+    c16_r_auth = r_auth; unwind 22,
+    c16_r_ipv4_exts_auth = r_ipv4_exts_auth; unwind 18,
+    c16_r_udp = r_udp; unwind 10,
+    c16_r_tcp = r_tcp; unwind 30,
+    c16_r_icmpv4 = r_icmpv4; unwind 22,
+    c16_r_icmpv6 = r_icmpv6; unwind 10,
+    c16_limited_reader = limited_reader; unwind 8,
+    c16_rl_ipv6_frag = rl_ipv6_frag; unwind 10,
+    c16_rl_raw_ext_16 = rl_raw_ext_16; unwind 18,
+    c16_rl_auth = rl_auth; unwind 22,
+    c16_slice_eth2 = slice_eth2; unwind 18,
+    c16_slice_sll = slice_sll; unwind 20,
+    c16_slice_eth2_embedded = slice_eth2_embedded; unwind 34,
+    c16_b_write_eth_v4_udp_3 = b_write_eth_v4_udp_3; unwind 48,
+    c16_b_slice_eth_v4_udp_3 = b_slice_eth_v4_udp_3; unwind 48,
+}
